@@ -422,7 +422,8 @@ impl Property for C16 {
                     }
                     let before = sim.tr.emitted.len();
                     let tag = sim.submit_raw(out.clone());
-                    sim.auto(40, false);
+                    // one service call moves at most one 4096-byte buffer: give large packets the steps they need
+                    sim.auto((40 + (sz as usize) / 1000) as u32, false);
                     let sent: Option<usize> = sim.tr.emitted[before..].iter().find(|e| e.pkt.type_code() == 3).map(|e| e.end - e.start);
                     let failed_validation = sim.tr.evs.iter().any(|e| matches!(e, Ev::Done { tag: t, done: Done::Err(EK::PacketValidation, _), .. } if Some(*t) == tag));
                     labels.push(format!("aliased_publish_vs_size_limit:+{}", delta));
@@ -480,7 +481,9 @@ impl Property for C16 {
             }
             let before_pkts = sim.tr.emitted.len();
             let tag = sim.submit_raw(out.clone());
-            sim.auto(40, false);
+            // one service call moves at most one 4096-byte buffer: a 200 kB packet needs about a hundred steps (running out
+            // of steps would look like "never sent")
+            sim.auto((40 + size.map(|s| s as usize / 1000).unwrap_or(0) + 300) as u32, false);
             let tr = &sim.tr;
             let wanted = match &case.packet {
                 AbsPacket::Publish(_) => 3u8,
